@@ -19,14 +19,14 @@ pub broadcast proof fn lemma_skip_all(s: Seq<u8>)
 pub broadcast proof fn lemma_take_all(s: Seq<u8>)
     ensures #[trigger] s.take(s.len() as int) == s,
 { assert(s.take(s.len() as int) =~= s); }
-pub broadcast proof fn lemma_concat_take_skip(a: Seq<u8>, b: Seq<u8>)
-    ensures
-        #[trigger] (a + b).take(a.len() as int) == a,
-        (a + b).skip(a.len() as int) == b,
-{
-    assert((a + b).take(a.len() as int) =~= a);
-    assert((a + b).skip(a.len() as int) =~= b);
-}
+pub broadcast proof fn lemma_concat_skip(a: Seq<u8>, b: Seq<u8>, k: int)
+    requires k == a.len(),
+    ensures #[trigger] (a + b).skip(k) == b,
+{ assert((a + b).skip(k) =~= b); }
+pub broadcast proof fn lemma_concat_take(a: Seq<u8>, b: Seq<u8>, k: int)
+    requires k == a.len(),
+    ensures #[trigger] (a + b).take(k) == a,
+{ assert((a + b).take(k) =~= a); }
 pub broadcast proof fn lemma_concat_empty(a: Seq<u8>)
     ensures #[trigger] (a + Seq::<u8>::empty()) == a, Seq::<u8>::empty() + a == a,
 {
@@ -38,7 +38,7 @@ pub broadcast proof fn lemma_avp_eq(a: AvpV, b: AvpV)
 { }
 
 pub broadcast group group_spec_seq {
-    lemma_skip_skip, lemma_skip_zero, lemma_skip_all, lemma_take_all, lemma_concat_take_skip, lemma_concat_empty,
+    lemma_skip_skip, lemma_skip_zero, lemma_skip_all, lemma_take_all, lemma_concat_skip, lemma_concat_take, lemma_concat_empty,
     lemma_avp_eq,
     crate::vf_prelude::group_be,
     crate::vf_prelude::axiom_chars_bytes_utf8,
@@ -53,14 +53,14 @@ pub open spec fn spec_overwrite(s: Seq<u8>, off: int, b: Seq<u8>) -> Seq<u8> {
 
 // ---- header flag word (RFC 2661 §3.1; crate bit numbering, DESIGN Appendix B †) -----------------------
 // T = bit 8, L = bit 9, S = bit 12, O = bit 14, P = bit 15, version = bits 4..7, reserved = {0,1,2,3,10,11,13}
-pub open spec fn fw_t(w: int) -> bool { (w / 256) % 2 == 1 }
-pub open spec fn fw_l(w: int) -> bool { (w / 512) % 2 == 1 }
-pub open spec fn fw_s(w: int) -> bool { (w / 4096) % 2 == 1 }
-pub open spec fn fw_o(w: int) -> bool { (w / 16384) % 2 == 1 }
-pub open spec fn fw_p(w: int) -> bool { (w / 32768) % 2 == 1 }
-pub open spec fn fw_version(w: int) -> int { (w / 16) % 16 }
-pub open spec fn fw_reserved_ok(w: int) -> bool { w % 16 == 0 && (w / 1024) % 4 == 0 && (w / 8192) % 2 == 0 }
-pub open spec fn spec_flag_word(control: bool, l: bool, s: bool, o: bool, p: bool, version: int) -> int {
+pub closed spec fn fw_t(w: int) -> bool { (w / 256) % 2 == 1 }
+pub closed spec fn fw_l(w: int) -> bool { (w / 512) % 2 == 1 }
+pub closed spec fn fw_s(w: int) -> bool { (w / 4096) % 2 == 1 }
+pub closed spec fn fw_o(w: int) -> bool { (w / 16384) % 2 == 1 }
+pub closed spec fn fw_p(w: int) -> bool { (w / 32768) % 2 == 1 }
+pub closed spec fn fw_version(w: int) -> int { (w / 16) % 16 }
+pub closed spec fn fw_reserved_ok(w: int) -> bool { w % 16 == 0 && (w / 1024) % 4 == 0 && (w / 8192) % 2 == 0 }
+pub closed spec fn spec_flag_word(control: bool, l: bool, s: bool, o: bool, p: bool, version: int) -> int {
     (if control { 256int } else { 0 }) + (if l { 512int } else { 0 }) + (if s { 4096int } else { 0 })
     + (if o { 16384int } else { 0 }) + (if p { 32768int } else { 0 }) + version * 16
 }
@@ -96,6 +96,13 @@ pub open spec fn pok_1(v: AvpV) -> bool {
     && (v.n == 2 ==> v.b0.len() > 0 && is_utf8(v.b0))
     && v.i2 == 0 && v.i3 == 0 && v.i4 == 0 && v.i5 == 0 && v.b1.len() == 0
 }
+pub open spec fn perr_1(p: Seq<u8>) -> Option<crate::common::DecodeError> {
+    if p.len() < 2 { Some(crate::common::DecodeError::IncompleteAVP(1)) }
+    else if p.len() < 4 { None }
+    else if spec_error_type_of(be16(p.skip(2)) as u16) is None { Some(crate::common::DecodeError::InvalidResultCodeErrorType(be16(p.skip(2)) as u16)) }
+    else if p.len() > 4 && !is_utf8(p.skip(2).skip(2)) { Some(crate::common::DecodeError::InvalidUtf8(1)) }
+    else { None }
+}
 // hidden AVP: attribute number kept, value octets kept verbatim (possibly empty)
 pub open spec fn pok_hidden(v: AvpV) -> bool {
     v.hidden && 0 <= v.kind < 65536 && v.n == 0
@@ -105,5 +112,311 @@ pub open spec fn hidden_view(attribute_type: int, value: Seq<u8>) -> AvpV {
     AvpV { kind: attribute_type, hidden: true, n: 0, i0: 0, i1: 0, i2: 0, i3: 0, i4: 0, i5: 0, b0: value, b1: Seq::<u8>::empty() }
 }
 
-} // verus!
+
+// =====================================================================================================
+// AVP framing (RFC 2661 §4.1; crate bit numbering †: octet 0 = length bits 9..8 in its two high bits,
+// M = bit 0, H = bit 1; octet 1 = length bits 7..0; then vendor id, attribute type, payload)
+pub open spec fn hdr_len(s: Seq<u8>) -> int { (s[0] as int / 64) * 256 + s[1] as int }
+pub open spec fn hdr_hidden(s: Seq<u8>) -> bool { (s[0] as int / 2) % 2 == 1 }
+
+// result of decoding one AVP record: a value, or an error whose identity is given where the
+// properties name it (None = some error)
+pub enum RecV { Ok(AvpV), Err(Option<crate::common::DecodeError>) }
+
+pub open spec fn spec_decode_avp(kind: int, p: Seq<u8>) -> RecV {
+    if !spec_kind_assigned(kind) { RecV::Err(Some(crate::common::DecodeError::UnknownAvp(kind as u16))) }
+    else {
+        match spec_payload_dec(kind, p) {
+            Some(v) => RecV::Ok(v),
+            None => RecV::Err(spec_payload_err(kind, p)),
+        }
+    }
 }
+
+pub open spec fn spec_avp_list(s: Seq<u8>) -> Seq<RecV>
+    decreases s.len(),
+{
+    if s.len() < 6 { Seq::<RecV>::empty() }
+    else {
+        let len = hdr_len(s);
+        if len < 6 || len > s.len() { seq![RecV::Err(None)] }
+        else {
+            let payload = s.skip(6).take(len - 6);
+            let vendor = be16(s.skip(2));
+            let kind = be16(s.skip(2).skip(2));
+            let this = if vendor != 0 { RecV::Err(Some(crate::common::DecodeError::UnsupportedVendorId(vendor as u16))) }
+                       else if hdr_hidden(s) { RecV::Ok(hidden_view(kind, payload)) }
+                       else { spec_decode_avp(kind, payload) };
+            seq![this] + spec_avp_list(s.skip(6).skip(len - 6))
+        }
+    }
+}
+
+pub open spec fn rec_matches(r: Result<crate::avp::AVP, crate::common::DecodeError>, s: RecV) -> bool {
+    match s {
+        RecV::Ok(v) => r is Ok && r->Ok_0.av() == v,
+        RecV::Err(None) => r is Err,
+        RecV::Err(Some(e)) => r is Err && r->Err_0 == e,
+    }
+}
+pub open spec fn list_matches(rs: Seq<Result<crate::avp::AVP, crate::common::DecodeError>>, ss: Seq<RecV>) -> bool {
+    rs.len() == ss.len() && forall |i: int| 0 <= i < rs.len() ==> rec_matches(#[trigger] rs[i], ss[i])
+}
+pub proof fn lemma_list_matches_push(rs: Seq<Result<crate::avp::AVP, crate::common::DecodeError>>, ss: Seq<RecV>,
+                                     r: Result<crate::avp::AVP, crate::common::DecodeError>, s: RecV)
+    requires list_matches(rs, ss), rec_matches(r, s),
+    ensures list_matches(rs.push(r), ss.push(s)),
+{ }
+
+// ---- encoders --------------------------------------------------------------------------------------
+pub open spec fn spec_enc_avp(v: AvpV) -> Seq<u8> {
+    let body = enc16(v.kind) + spec_payload_enc(v);
+    let len = 4 + body.len();
+    seq![(((len / 256) % 4) * 64 + 1 + (if v.hidden { 2int } else { 0 })) as u8, (len % 256) as u8] + (enc16(0) + body)
+}
+pub open spec fn avp_fits(v: AvpV) -> bool { 6 + spec_payload_enc(v).len() <= 1023 }
+pub open spec fn spec_enc_avps(l: Seq<AvpV>) -> Seq<u8>
+    decreases l.len(),
+{
+    if l.len() == 0 { Seq::<u8>::empty() } else { spec_enc_avps(l.drop_last()) + spec_enc_avp(l.last()) }
+}
+
+// ---- control message (RFC 2661 §3.1) -------------------------------------------------------------------
+pub struct CtlV { pub length: int, pub tunnel: int, pub session: int, pub ns: int, pub nr: int, pub avps: Seq<AvpV> }
+
+pub open spec fn recs_all_ok(l: Seq<RecV>) -> bool { forall |i: int| 0 <= i < l.len() ==> (#[trigger] l[i]) is Ok }
+pub open spec fn recs_values(l: Seq<RecV>) -> Seq<AvpV> { Seq::new(l.len(), |i: int| l[i]->Ok_0) }
+pub open spec fn rec_is_message_type(r: RecV) -> bool { r is Ok && !r->Ok_0.hidden && r->Ok_0.kind == 0 }
+// acceptance of the AVP list of a control message: every record decodes, first (if any) is a Message Type
+pub open spec fn spec_tail_ok(l: Seq<RecV>) -> bool { recs_all_ok(l) && (l.len() > 0 ==> rec_is_message_type(l[0])) }
+// the errors a rejected list must report when its first record is a valid Message Type: one per bad record, in order
+pub open spec fn recs_errors(l: Seq<RecV>) -> Seq<Option<crate::common::DecodeError>>
+    decreases l.len(),
+{
+    if l.len() == 0 { Seq::empty() }
+    else {
+        let rest = recs_errors(l.drop_last());
+        match l.last() { RecV::Err(e) => rest.push(e), RecV::Ok(_) => rest }
+    }
+}
+pub open spec fn errs_match(es: Seq<crate::common::DecodeError>, ss: Seq<Option<crate::common::DecodeError>>) -> bool {
+    es.len() == ss.len() && forall |i: int| 0 <= i < es.len() ==> ((#[trigger] ss[i]) is Some ==> es[i] == ss[i]->Some_0)
+}
+
+// b = octets after the flag word w.  The record list of a control message whose fixed header is acceptable.
+pub open spec fn spec_control_list(w: int, check_unused: bool, b: Seq<u8>) -> Option<Seq<RecV>> {
+    if check_unused && (fw_p(w) || fw_o(w)) { None }
+    else if !fw_l(w) || !fw_s(w) { None }
+    else if b.len() < 10 { None }
+    else {
+        let length = be16(b);
+        let body = b.skip(2).skip(2).skip(2).skip(2).skip(2);
+        if length < 12 || length - 12 > body.len() { None }
+        else { Some(spec_avp_list(body.take(length - 12))) }
+    }
+}
+// result = (value, octets left after the message)
+pub open spec fn spec_control(w: int, check_unused: bool, b: Seq<u8>) -> Option<(CtlV, Seq<u8>)> {
+    match spec_control_list(w, check_unused, b) {
+        None => None,
+        Some(l) => {
+            if !spec_tail_ok(l) { None }
+            else {
+                let length = be16(b);
+                Some((CtlV { length: length, tunnel: be16(b.skip(2)), session: be16(b.skip(2).skip(2)),
+                             ns: be16(b.skip(2).skip(2).skip(2)), nr: be16(b.skip(2).skip(2).skip(2).skip(2)),
+                             avps: recs_values(l) },
+                      b.skip(2).skip(2).skip(2).skip(2).skip(2).skip(length - 12)))
+            }
+        }
+    }
+}
+pub open spec fn spec_enc_control(m: CtlV, version: int) -> Seq<u8> {
+    let body = spec_enc_avps(m.avps);
+    enc16(spec_flag_word(true, true, true, false, false, version)) + (enc16(12 + body.len() as int) + (enc16(m.tunnel) + (enc16(m.session)
+        + (enc16(m.ns) + (enc16(m.nr) + body)))))
+}
+pub open spec fn control_fits(m: CtlV) -> bool {
+    (forall |i: int| 0 <= i < m.avps.len() ==> avp_fits(#[trigger] m.avps[i])) && 12 + spec_enc_avps(m.avps).len() <= 65535
+}
+pub open spec fn ctl_eq(a: CtlV, b: CtlV) -> bool {
+    a.length == b.length && a.tunnel == b.tunnel && a.session == b.session && a.ns == b.ns && a.nr == b.nr && a.avps =~= b.avps
+}
+
+// ---- list post-processing of a decoded control message (std semantics of R6 wrappers) -----------------------
+pub open spec fn g_err(x: Result<crate::avp::AVP, crate::common::DecodeError>) -> Option<crate::common::DecodeError> {
+    match x { Err(e) => Some(e), Ok(_) => None }
+}
+pub open spec fn g_ok(x: Result<crate::avp::AVP, crate::common::DecodeError>) -> Option<crate::avp::AVP> {
+    match x { Ok(a) => Some(a), Err(_) => None }
+}
+pub open spec fn g_is_err(x: Result<crate::avp::AVP, crate::common::DecodeError>) -> bool { x is Err }
+pub open spec fn avps_view(s: Seq<crate::avp::AVP>) -> Seq<AvpV> { Seq::new(s.len(), |i: int| s[i].av()) }
+
+pub proof fn lemma_filter_ok(rs: Seq<Result<crate::avp::AVP, crate::common::DecodeError>>, ss: Seq<RecV>)
+    requires list_matches(rs, ss), recs_all_ok(ss),
+    ensures avps_view(filter_map_spec(rs, |x| g_ok(x))) =~= recs_values(ss),
+    decreases rs.len(),
+{
+    let g = |x: Result<crate::avp::AVP, crate::common::DecodeError>| g_ok(x);
+    if rs.len() > 0 {
+        let rs1 = rs.drop_last();
+        let ss1 = ss.drop_last();
+        assert(list_matches(rs1, ss1)) by {
+            assert forall |i: int| 0 <= i < rs1.len() implies rec_matches(#[trigger] rs1[i], ss1[i]) by {
+                assert(rec_matches(rs[i], ss[i]));
+            }
+        }
+        assert(recs_all_ok(ss1)) by {
+            assert forall |i: int| 0 <= i < ss1.len() implies (#[trigger] ss1[i]) is Ok by { assert(ss[i] is Ok); }
+        }
+        lemma_filter_ok(rs1, ss1);
+        assert(rec_matches(rs[rs.len() - 1], ss[rs.len() - 1]));
+        assert(ss[rs.len() - 1] is Ok);
+        assert(rs.last() is Ok);
+        let f1 = filter_map_spec(rs1, g);
+        assert(filter_map_spec(rs, g) == f1.push(rs.last()->Ok_0));
+        assert(avps_view(f1) =~= recs_values(ss1));
+        assert(avps_view(f1.push(rs.last()->Ok_0)) =~= avps_view(f1).push(rs.last()->Ok_0.av()));
+        assert(recs_values(ss) =~= recs_values(ss1).push(ss.last()->Ok_0));
+    } else {
+        assert(filter_map_spec(rs, g) =~= Seq::empty());
+    }
+}
+pub proof fn lemma_filter_err(rs: Seq<Result<crate::avp::AVP, crate::common::DecodeError>>, ss: Seq<RecV>)
+    requires list_matches(rs, ss),
+    ensures errs_match(filter_map_spec(rs, |x| g_err(x)), recs_errors(ss)),
+    decreases rs.len(),
+{
+    let g = |x: Result<crate::avp::AVP, crate::common::DecodeError>| g_err(x);
+    if rs.len() > 0 {
+        let rs1 = rs.drop_last();
+        let ss1 = ss.drop_last();
+        assert(list_matches(rs1, ss1)) by {
+            assert forall |i: int| 0 <= i < rs1.len() implies rec_matches(#[trigger] rs1[i], ss1[i]) by {
+                assert(rec_matches(rs[i], ss[i]));
+            }
+        }
+        lemma_filter_err(rs1, ss1);
+        assert(rec_matches(rs[rs.len() - 1], ss[rs.len() - 1]));
+    }
+}
+pub proof fn lemma_any_err(rs: Seq<Result<crate::avp::AVP, crate::common::DecodeError>>, ss: Seq<RecV>)
+    requires list_matches(rs, ss),
+    ensures seq_any(rs, |x| g_is_err(x)) <==> !recs_all_ok(ss),
+{
+    let g = |x: Result<crate::avp::AVP, crate::common::DecodeError>| g_is_err(x);
+    if !recs_all_ok(ss) {
+        let i = choose |i: int| 0 <= i < ss.len() && !((#[trigger] ss[i]) is Ok);
+        assert(rec_matches(rs[i], ss[i]));
+        assert(g(rs[i]));
+        assert(seq_any(rs, g));
+    } else {
+        assert forall |i: int| 0 <= i < rs.len() implies !(#[trigger] g(rs[i])) by {
+            assert(rec_matches(rs[i], ss[i]));
+            assert(ss[i] is Ok);
+        }
+        assert(!seq_any(rs, g));
+    }
+}
+pub proof fn lemma_errors_nonempty(ss: Seq<RecV>)
+    requires !recs_all_ok(ss),
+    ensures recs_errors(ss).len() > 0,
+    decreases ss.len(),
+{
+    if ss.len() > 0 {
+        if ss.last() is Ok {
+            assert(!recs_all_ok(ss.drop_last())) by {
+                let i = choose |i: int| 0 <= i < ss.len() && !((#[trigger] ss[i]) is Ok);
+                assert(ss.drop_last()[i] == ss[i]);
+            }
+            lemma_errors_nonempty(ss.drop_last());
+        }
+    }
+}
+
+// ---- data message (RFC 2661 §3.1) -------------------------------------------------------------------------
+pub struct DataV {
+    pub prio: bool, pub length: Option<int>, pub tunnel: int, pub session: int,
+    pub ns_nr: Option<(int, int)>, pub offset: Option<int>, pub data: Seq<u8>,
+}
+// each step consumes a prefix (wire order): [Length] tunnel session [Ns Nr] [offset size n, n pad octets] payload
+pub open spec fn spec_data(w: int, b0: Seq<u8>) -> Option<(DataV, Seq<u8>)> {
+    let need: int = 4 + (if fw_l(w) { 2int } else { 0 }) + (if fw_s(w) { 4int } else { 0 }) + (if fw_o(w) { 2int } else { 0 });
+    if b0.len() < need { None } else {
+        let length = if fw_l(w) { Some(be16(b0)) } else { None };
+        let b1 = if fw_l(w) { b0.skip(2) } else { b0 };
+        let tunnel = be16(b1);
+        let session = be16(b1.skip(2));
+        let b2 = b1.skip(2).skip(2);
+        let ns_nr = if fw_s(w) { Some((be16(b2), be16(b2.skip(2)))) } else { None };
+        let b3 = if fw_s(w) { b2.skip(2).skip(2) } else { b2 };
+        let pad: int = if fw_o(w) { be16(b3) } else { 0 };
+        let b4 = if fw_o(w) { b3.skip(2) } else { b3 };
+        if b4.len() < pad { None } else {
+            let b5 = b4.skip(pad);
+            // Length counts every octet from the first flag octet: 2 + need + pad + |payload|
+            let n: int = match length { Some(l) => l - (2 + need + pad), None => b5.len() as int };
+            if n <= 0 || n > b5.len() { None }
+            else {
+                Some((DataV { prio: fw_p(w), length: length, tunnel: tunnel, session: session, ns_nr: ns_nr, offset: None, data: b5.take(n) },
+                      b5.skip(n)))
+            }
+        }
+    }
+}
+pub open spec fn data_eq(a: DataV, b: DataV) -> bool {
+    a.prio == b.prio && a.length == b.length && a.tunnel == b.tunnel && a.session == b.session && a.ns_nr == b.ns_nr
+    && a.offset == b.offset && a.data =~= b.data
+}
+// the one fault of a data message that carries a value: offset size larger than what follows it
+pub open spec fn spec_data_offset_fault(w: int, b0: Seq<u8>) -> Option<int> {
+    let need: int = 4 + (if fw_l(w) { 2int } else { 0 }) + (if fw_s(w) { 4int } else { 0 }) + (if fw_o(w) { 2int } else { 0 });
+    if b0.len() < need || !fw_o(w) { None } else {
+        let b1 = if fw_l(w) { b0.skip(2) } else { b0 };
+        let b2 = b1.skip(2).skip(2);
+        let b3 = if fw_s(w) { b2.skip(2).skip(2) } else { b2 };
+        if b3.skip(2).len() < be16(b3) { Some(be16(b3)) } else { None }
+    }
+}
+pub open spec fn spec_enc_data(d: DataV, version: int) -> Seq<u8> {
+    enc16(spec_flag_word(false, d.length is Some, d.ns_nr is Some, d.offset is Some, d.prio, version))
+    + ((match d.length { Some(l) => enc16(l), None => Seq::<u8>::empty() })
+    + (enc16(d.tunnel) + (enc16(d.session)
+    + ((match d.ns_nr { Some(p) => enc16(p.0) + enc16(p.1), None => Seq::<u8>::empty() })
+    + ((match d.offset { Some(o) => enc16(o), None => Seq::<u8>::empty() })
+    + d.data)))))
+}
+
+// ---- message -----------------------------------------------------------------------------------------------
+pub enum MsgV { Control(CtlV), Data(DataV) }
+pub open spec fn spec_message(b: Seq<u8>, check_reserved: bool, check_version: bool, check_unused: bool) -> Option<(MsgV, Seq<u8>)> {
+    if b.len() < 2 { None }
+    else {
+        let w = be16(b);
+        if check_version && fw_version(w) != 2 { None }
+        else if check_reserved && !fw_reserved_ok(w) { None }
+        else if fw_t(w) {
+            match spec_control(w, check_unused, b.skip(2)) { Some(r) => Some((MsgV::Control(r.0), r.1)), None => None }
+        } else {
+            match spec_data(w, b.skip(2)) { Some(r) => Some((MsgV::Data(r.0), r.1)), None => None }
+        }
+    }
+}
+// the flag word is present and passes the enabled version / reserved-bit checks
+pub open spec fn spec_message_reaches_body(b: Seq<u8>, check_reserved: bool, check_version: bool) -> bool {
+    b.len() >= 2 && !(check_version && fw_version(be16(b)) != 2) && !(check_reserved && !fw_reserved_ok(be16(b)))
+}
+pub open spec fn msg_eq(a: MsgV, b: MsgV) -> bool {
+    match (a, b) {
+        (MsgV::Control(x), MsgV::Control(y)) => ctl_eq(x, y),
+        (MsgV::Data(x), MsgV::Data(y)) => data_eq(x, y),
+        _ => false,
+    }
+}
+pub open spec fn spec_enc_message(m: MsgV) -> Seq<u8> {
+    match m { MsgV::Control(c) => spec_enc_control(c, 2), MsgV::Data(d) => spec_enc_data(d, 2) }
+}
+
+} // verus!
+} // mod vf_spec
